@@ -16,7 +16,27 @@ def leaves(body, op):
     return sorted(x for x in K.expr_sig(body, op) if x.startswith("leaf:"))
 
 
+def detached_gap(F, S, R):
+    """F16 (fixed 2666d44): the ids a reorg removes from the *gap* are reported as detached too (finalize used to diff the proposed set only,
+    so a pooled transaction stayed in the Gap stage after a one-block tip race)."""
+    fin = F.need("ckb_proposal_table::ProposalTable::finalize")
+    R.fn(fin)
+    rets = [st for blk in fin.blocks for st in blk["s"] if st[0][0] == 0 and not st[0][1] and st[1].get("k") == "agg" and st[1].get("ak") == "tuple"]
+    R.sites += len(rets)
+    if not rets:
+        R.bad("prov/removed-ids/anchor-lost", "the (removed ids, view) result of ProposalTable::finalize was not found", [fin.where()])
+        return
+    srcs = set()
+    for st in rets:
+        srcs |= fin.operand_sources(st[1]["ops"][0])
+    if K.src_match(srcs, [r"call:.*ProposalView::set$"]) and K.src_match(srcs, [r"call:.*ProposalView::gap$"]):
+        R.ok("prov/removed-ids", "the removed ids are computed from the old proposed set and the old gap", [fin.where()])
+    else:
+        R.bad("prov/removed-ids", "ProposalTable::finalize reports only ids leaving the proposed set: ids a reorg removes from the gap are never reported and the pool keeps them in the Gap stage", [fin.where()])
+
+
 def run(F, S, R, tier):
+    R.guard("prov/removed-ids", lambda: detached_gap(F, S, R))
     fin = F.need(PT + "finalize")
 
     # ---------------------------------------------------------------- 1. proposal ids of a block include uncle proposals
@@ -102,11 +122,20 @@ def run(F, S, R, tier):
             R.ok("affine/finalize/split-key", "rows < n+1-w_far are discarded", [so[0].where()])
         else:
             R.bad("affine/finalize/split-key", "split_off key is not n+1-w_far", [fin.where()])
+        # removed ids = ids of the old view (origin.set(), and since the F16 fix origin.gap()) that the new view no longer has:
+        # either `origin.set().difference(&new_ids)` or the filter/contains form
         df = fin.calls_to(r"HashSet::<.*>::difference$")
+        flt = [x for x in K.with_nested(fin) if x is not fin and x.calls_to(r"HashSet::<.*>::contains$")]
+        rets = [st for blk in fin.blocks for st in blk["s"] if st[0][0] == 0 and not st[0][1] and st[1].get("k") == "agg" and st[1].get("ak") == "tuple"]
+        rsrc = set()
+        for st in rets:
+            rsrc |= fin.operand_sources(st[1]["ops"][0])
         if df and K.src_match(fin.operand_sources(df[0].args[0]), [r"param:origin", r"call:.*ProposalView::set$"]) and not K.src_match(fin.operand_sources(df[0].args[1]), [r"param:origin"]):
             R.ok("prov/finalize/removed", "dropped ids = origin's committable set minus the new committable set", [df[0].where()])
+        elif flt and K.src_match(rsrc, [r"call:.*ProposalView::set$", r"call:.*Iterator::filter$"]):
+            R.ok("prov/finalize/removed", "dropped ids = ids of the old view that the new view does not contain", [fin.where()])
         else:
-            R.bad("prov/finalize/removed", "removed ids are not origin.set().difference(new_ids)", [fin.where()])
+            R.bad("prov/finalize/removed", "removed ids are not the old view's ids minus the new view's", [fin.where()])
         pv = fin.calls_to(r"ProposalView::new$")
         if pv and K.src_match(fin.operand_sources(pv[0].args[0]), [r"idx:#1"]) and K.src_match(fin.operand_sources(pv[0].args[1]), [r"idx:#0"]):
             R.ok("prov/finalize/view", "the view is built as (gap, committable) in that order", [pv[0].where()])
